@@ -33,6 +33,14 @@ type ltOp struct {
 	Has bool     `json:"has,omitempty"`
 }
 
+// ltKeyString: key 0 is the empty string — a request carrying it is keyed (its own scope), not keyless
+func ltKeyString(k uint64) string {
+	if k == 0 {
+		return ""
+	}
+	return fmt.Sprintf("key-%d", k)
+}
+
 type ltCase struct {
 	Ops  []ltOp   `json:"ops"`
 	Tags []string `json:"tags,omitempty"`
@@ -88,7 +96,7 @@ func runLtCase(c ltCase) (obs []string, sends, skips int) {
 		s := stream(o.R)
 		switch o.K {
 		case "dedup":
-			s.DedupKey(fmt.Sprintf("key-%d", o.Key))
+			s.DedupKey(ltKeyString(o.Key))
 		case "ignore":
 			var ls []ipld.Link
 			for _, l := range o.Ls {
@@ -168,7 +176,7 @@ func genLtCase(r *rng.R, maxOps int) (ltCase, string) {
 			if wellFormed && started[q] {
 				continue
 			}
-			c.Ops = append(c.Ops, ltOp{K: "dedup", R: q, Key: uint64(r.Range(1, 2))})
+			c.Ops = append(c.Ops, ltOp{K: "dedup", R: q, Key: uint64(r.Range(0, 2))})
 			started[q] = true
 		case x < 14:
 			if wellFormed && started[q] && r.P(2, 3) {
@@ -242,7 +250,7 @@ func driveLinkTracker(c *ctx) error {
 		{Name: "MISMATCH", Fn: "lcase_agrees"},
 		{Name: "MON19", Fn: "lcase_mon"},
 	})
-	w.Stats.Rule = "scripts of dedup-key/ignore/skip-first/record-traversal/finish over 1-4 interleaved requests, 1-5 links, 2 dedup keys " +
+	w.Stats.Rule = "scripts of dedup-key/ignore/skip-first/record-traversal/finish over 1-4 interleaved requests, 1-5 links, 3 dedup keys (one of them the empty string, which is a key like any other) " +
 		"against the real ResponseAssembler link tracking (streams + transactions); 80% respect the protocol order, 20% free; " +
 		"non-trivial = some block was suppressed as a duplicate or skipped AND some block was sent; distinct = distinct (script, observation) terms"
 	add := func(lc ltCase, tag string) {
